@@ -214,7 +214,7 @@ def streams(seed, tier):
     # (3) the pushr binary against the library, programs that terminate in the model
     ncli = {"quick": 40, "thorough": 1200, "search": 150}[tier]
     texts = list(CLI_FIXED) + [rand_cli_text(rng, rng.randrange(2, 14)) for _ in range(ncli)]
-    probe = vcheck.run_model(["thr.cli " + cli_case(0, t) for t in texts])
+    probe = vcheck.run_model(["thr.cli " + cli_case(0, t) for t in texts], timeout=120, tolerant=True)      # texts on which the model gives no answer in time are not used
     keep = [t for t, r in zip(texts, probe) if r.startswith("(0 ") and r.endswith(" 0))")]
     cases = [cli_case(prof, t) for t in keep for prof in (0, 1)]
     out.append(Stream("cli-vs-library", "thr.cli", "thr.cli.check", cases,
